@@ -5,11 +5,11 @@ pub async fn read_message_async<R: AsyncRead + Unpin>(r: &mut R) -> Result<Messa
     let mut hdr = [0u8; HEADER_SIZE];
     r.read_exact(&mut hdr).await?;
     let header = Header::decode(&hdr)?;
-    let mut query = vec![0u8; header.query_length as usize];
+    let mut query = crate::io::zeroed_payload(header.query_length)?;
     if !query.is_empty() {
         r.read_exact(&mut query).await?;
     }
-    let mut body = vec![0u8; header.body_length as usize];
+    let mut body = crate::io::zeroed_payload(header.body_length)?;
     if !body.is_empty() {
         r.read_exact(&mut body).await?;
     }
@@ -29,8 +29,9 @@ pub async fn read_message_into_async<R: AsyncRead + Unpin>(
     buf.resize(HEADER_SIZE, 0);
     r.read_exact(&mut buf[..HEADER_SIZE]).await?;
     let header = Header::decode(&buf[..HEADER_SIZE])?;
-    let total = HEADER_SIZE + header.query_length as usize + header.body_length as usize;
-    buf.resize(total, 0);
+    // `decode` checked that 48 + query + body == length without overflow.
+    crate::io::grow_zeroed(buf, header.length - HEADER_SIZE as u64)?;
+    let total = buf.len();
     r.read_exact(&mut buf[HEADER_SIZE..total]).await?;
     Ok(())
 }
